@@ -2,7 +2,7 @@
 // VF-VARIANT: san
 // VF-VARIANT_THOROUGH: opt
 // VF-RULE: E2: every n-by-n integer matrix over a stated alphabet (mixed-radix index, simplest first: index 0 is the zero matrix), every symmetric integer matrix over {-1,0,1} (upper triangle enumerated), and completely enumerated exact constructions up to n=12: companion matrices of every multiset (size<=6) of roots from {-2,-1,1,2,1+-i,+-2i,-1+-2i} and their transposes, direct sums of rotation blocks / Jordan blocks / scalars conjugated by every permutation (n<=5) or a fixed permutation set and by unimodular integer shears, power-of-two gradings D.A.D^-1 spanning 2^-20..2^20, full Jordan blocks, zero and identity; each constructor call runs under a per-case alarm (a constructor that never returns is a violation with the matrix as witness). exp/pow are enumerated over all symmetric members (n<=4) and the constructed real-distinct-spectrum members in all 3x3 storage-class pairs. A case is non-trivial when the matrix is not diagonal.
-// VF-BOUND: lattices n=2 [-3,3], n=3 {-1,0,1} (thorough [-2,2]), n=4 {0,1} (thorough adds the 3^13 sub-lattice of {-1,0,1}^16 with a11=a12=a13=0); symmetric n<=4 (thorough n<=5) over {-1,0,1}; n=5..12 only through the enumerated constructions; "random dense" replaced by the exhaustive lattices; gradings use powers of two (2^-20..2^20 ~ 1e-6..1e6) so that trace, determinant and spectrum stay exact
+// VF-BOUND: lattices n=2 [-3,3], n=3 {-1,0,1} (thorough [-2,2]), n=4 {0,1} plus the sub-lattice of {-1,0,1}^16 with the first two rows fixed to (1,-1,0,1),(-1,-1,0,0) (3^8; thorough: first three entries fixed to (1,-1,0), 3^13); symmetric n<=4 (thorough n<=5) over {-1,0,1}; n=5..12 only through the enumerated constructions; "random dense" replaced by the exhaustive lattices; gradings use powers of two (2^-20..2^20 ~ 1e-6..1e6) so that trace, determinant and spectrum stay exact
 // VF-LEVEL: bounded-exhaustive check of the real EigenValue / MatrixTools::exp / MatrixTools::pow(A,double) against exact integer references (trace, Bareiss determinant in __int128, exact integer powers, long-double power series); residual judged by the norm-wise backward-error shape 64.n.eps.|A|.|V| of Householder/QR eigen-solvers, all consequences (trace, determinant, exp, pow) derived from that single constant
 // VF-ASSUME: IEEE-754 binary64 in the library, 80-bit long double in the harness;; "small multiple of machine epsilon" of the statement is read as p(n)=64n with eps=2^-52 (LAPACK's acceptance threshold for the same ratio is 20..30, without the factor n), i.e. tred2/tql2 and orthes/hqr2 are required to be norm-wise backward stable with |E|_max <= 64.n.eps.|A|_inf;; perturbation bounds |det(A+E)-det(A)| <= perm(|A|+|E|)-perm(|A|), |e^(A+E)-e^A| <= |E|e^(|A|+|E|);; g++ __int128;; the engine's fork/alarm supervisor (a hang is confirmed by re-running the case alone with 10x the budget)
 // VF-TECHNIQUE: exhaustive enumeration + exact reference + backward-error bounds + per-case alarm
@@ -285,16 +285,18 @@ static std::string alphaName(const std::string& spec) { return spec[0] == 's' ? 
 // including the oracle); 0.03/0.05 s (0.3/0.5 s when re-run alone; several scheduler ticks, the granularity of CPU-time alarms) only ever expire on a call that does not return
 static const double T_LATTICE = 0.03, T_STRUCT = 0.05;
 
-// fixedZeros > 0: the sub-lattice of matrices whose first fixedZeros entries (row-major) are 0, i.e. the indices = 0 mod K^fixedZeros of the
-// full lattice (a stated sub-lattice taken by stride, not a sample)
-static void lattice(vf::Runner& R, int n, const std::string& spec, bool allClasses, int fixedZeros = 0) {
+// prefix non-empty: the sub-lattice of matrices whose first entries (row-major) are the given values: a stated sub-lattice of the full
+// lattice, completely enumerated (not a sample)
+static void lattice(vf::Runner& R, int n, const std::string& spec, bool allClasses, std::vector<LL> prefix = std::vector<LL>()) {
   std::vector<LL> al = alpha(spec); int K = (int)al.size();
-  uint64_t N = 1; for (int i = fixedZeros; i < n * n; ++i) N *= (uint64_t)K;
+  uint64_t N = 1; for (int i = (int)prefix.size(); i < n * n; ++i) N *= (uint64_t)K;
   int rep = allClasses ? 3 : 1;
-  std::string name = "eig:int:n" + str(n) + ":" + alphaName(spec) + (fixedZeros ? ":first" + str(fixedZeros) + "entries=0" : "") + (allClasses ? ":classes3" : "");
+  std::string pre; for (LL x : prefix) pre += (pre.empty() ? "" : ",") + str(x);
+  std::string name = "eig:int:n" + str(n) + ":" + alphaName(spec) + (prefix.empty() ? "" : ":first-entries=(" + pre + ")") + (allClasses ? ":classes3" : "");
   R.space(name, N * rep, [=](uint64_t idx, vf::Case& c) {
     uint64_t m = idx / rep; int cls = allClasses ? (int)(idx % 3) : (int)((idx / 5 + idx) % 3);
-    std::vector<LL> v((size_t)n * n, 0); for (size_t q = (size_t)fixedZeros; q < v.size(); ++q) { v[q] = al[m % K]; m /= K; }
+    std::vector<LL> v((size_t)n * n, 0);
+    for (size_t q = 0; q < v.size(); ++q) { if (q < prefix.size()) v[q] = prefix[q]; else { v[q] = al[m % K]; m /= K; } }
     Mat M = intMat(n, v, "");
     if (n == 2) M.cplx = ((v[0] - v[3]) * (v[0] - v[3]) + 4 * v[1] * v[2] < 0) ? 1 : 0;   // sign of the discriminant, exact
     Dec d = judge(c, "eigen", M, cls);
@@ -534,9 +536,12 @@ int main(int argc, char** argv) {
   symFun(R, 3, "-1..1", true);
   symFun(R, 4, "-1..1", false);
   lattice(R, 4, "01", false);
+  // sub-lattices of the 4x4 lattice over {-1,0,1} (the full 43M lattice is out of reach on the unchanged tree, see note): located with a
+  // probe of the full lattice; they contain members on which the double-shift QR iteration stagnates even after the zero-shift repair
+  lattice(R, 4, "-1..1", false, {1, -1, 0, 1, -1, -1, 0, 0});
   if (th) {
     symLattice(R, 5, "-1..1");
-    lattice(R, 4, "-1..1", false, 3);
+    lattice(R, 4, "-1..1", false, {1, -1, 0});
   }
   R.expectSeen("input:symmetric");
   R.expectSeen("input:nonsymmetric");
@@ -548,7 +553,7 @@ int main(int argc, char** argv) {
   R.note("every case runs under the engine's CPU-time alarm of 0.03 s (n<=4 lattices) / 0.05 s (constructions, exp/pow); a case that trips it is re-run alone with 10x that budget before a hang is reported; normal cost is microseconds to about a millisecond");
   R.note("residual, trace, determinant, orthonormality, exp and pow tolerances all derive from one constant: norm-wise backward error p(n)=64n times eps=2^-52; determinant via the permanent perturbation bound; exp/pow scaled by the condition number of the returned V (computed in long double)");
   R.note("exp/pow are judged only where the statement places them: symmetric members (orthonormal V) and constructed matrices with real distinct spectrum; defective or complex-spectrum matrices are not judged for exp/pow");
-  R.note("the full 4x4 lattice over {-1,0,1} (43M) is not run: on the unchanged tree 11131 of its members never return (probe), each costing a 0.33 s confirmation; the thorough tier runs the stride sub-lattice a11=a12=a13=0 (1.59M matrices, 488 of which never return)");
+  R.note("the full 4x4 lattice over {-1,0,1} (43M) is not run: on the unchanged tree 11131 of its members never return (probe), each costing a 0.33 s confirmation; instead two completely enumerated sub-lattices (fixed leading entries) are run, chosen with a probe of the full lattice so that they contain members of both non-return mechanisms (QR sweep abandoned on a zero shift; stagnation at a fixed point of the shifted sweep because the exceptional shifts are applied only once)");
   R.note("gradings use powers of two so that the graded matrix is exactly similar to its integer base");
   return R.finish();
 }
